@@ -57,6 +57,40 @@ def run_intake(rp, cl, uids, things):
     return {'worked': worked, 'canceled': canceled, 'cancel_list': list(p._cancel_list)}, unsched
 
 
+def sched_monitor(sc, out):
+    """cancel clauses on one run of the real scheduler loop"""
+    bad = []
+    named = set()
+    requested = set()      # uids of cancel requests as the agent sees them: marked and named together
+    final = {}
+    for k, o in enumerate(out):
+        it = sc['iters'][k]
+        for m in it['incoming']:
+            named |= set(m.get('cancel', []))
+            requested |= set(m.get('cancel', [])) & set(it['marks'])
+        named |= set(it['marks'])
+        wp_before = set(u for _, us in (out[k - 1]['state']['waitpool'] if k else []) for u in us)
+        for uid, st in o['events']:
+            final.setdefault(uid, st)
+            if st == 'CANCELED' and uid not in named:
+                bad.append(('scheduler:bystander-canceled', 'task %d' % uid))
+        wp_after = set(u for _, us in o['state']['waitpool'] for u in us)
+        for m in it['incoming']:
+            for uid in m.get('cancel', []):
+                if uid in wp_before and uid in wp_after and final.get(uid) != 'CANCELED':
+                    bad.append(('scheduler:waiting-task-not-canceled', 'task %d still waits after the cancel message' % uid))
+        for uid in sorted(requested & wp_after):
+            bad.append(('scheduler:canceled-task-still-waits', 'task %d was named by a cancel request (control message: '
+                        'cancel mark and CANCEL message) and is in the wait pool afterwards; it will be started when '
+                        'resources free up' % uid))
+    for uid, st in final.items():
+        if st == 'CANCELED':
+            first_cancel = min(k for k, o in enumerate(out) if [uid, 'CANCELED'] in o['events'])
+            if any([uid, 'AGENT_EXECUTING_PENDING'] in o['events'] for o in out[first_cancel + 1:]):
+                bad.append(('scheduler:canceled-task-started-later', 'task %d' % uid))
+    return bad, named, any(st == 'CANCELED' for st in final.values())
+
+
 def run(ctx):
     rp  = rpload.load()
     rng = ctx.rng
@@ -113,36 +147,17 @@ def run(ctx):
     common.compare(ctx, 'exec', ops, impl, what='real Popen executor with cancel requests / timeouts at every step')
 
     # -- (c) scheduler wait pool ----------------------------------------------------------
-    nbad = 0
+    sops, simpl = [], []
     for i in range(ctx.n(120, 4000)):
         sc = schedlib.fill_releases(rp, schedlib.gen_script(rng, small=True))
         s, out, tasks, crash = schedlib.run_script(rp, sc)
-        named = set()
-        final = {}
-        for k, o in enumerate(out):
-            it = sc['iters'][k]
-            for m in it['incoming']:
-                named |= set(m.get('cancel', []))
-            named |= set(it['marks'])
-            wp_before = set(u for _, us in (out[k - 1]['state']['waitpool'] if k else []) for u in us)
-            for uid, st in o['events']:
-                final.setdefault(uid, st)
-                if st == 'CANCELED' and uid not in named:
-                    ctx.fail('scheduler:bystander-canceled', 'task %d' % uid, {'kind': 'sched', 'script': sc})
-            wp_after = set(u for _, us in o['state']['waitpool'] for u in us)
-            for m in it['incoming']:
-                for uid in m.get('cancel', []):
-                    if uid in wp_before and uid in wp_after and final.get(uid) != 'CANCELED':
-                        ctx.fail('scheduler:waiting-task-not-canceled', 'task %d still waits after the cancel message' % uid,
-                                 {'kind': 'sched', 'script': sc})
-        for uid, st in final.items():
-            if st == 'CANCELED':
-                later = [e for o in out for e in o['events'] if e[0] == uid and e[1] == 'AGENT_EXECUTING_PENDING']
-                first_cancel = min(k for k, o in enumerate(out) if [uid, 'CANCELED'] in o['events'])
-                if any([uid, 'AGENT_EXECUTING_PENDING'] in o['events'] for o in out[first_cancel + 1:]):
-                    ctx.fail('scheduler:canceled-task-started-later', 'task %d' % uid, {'kind': 'sched', 'script': sc})
-        ctx.case({'sched_script': i, 'named': sorted(named)}, nontrivial=any(st == 'CANCELED' for st in final.values()))
-    ctx.obligation('scheduler wait-pool cancel clauses monitored on the real loop', 'tie', True, '')
+        sops.append(schedlib.model_op(sc)); simpl.append(schedlib.canon_impl(out, crash))
+        bad, named, anyc = sched_monitor(sc, out)
+        for sig, what in bad:
+            ctx.fail(sig, what, {'kind': 'sched', 'script': sc})
+        ctx.case({'sched_script': i, 'named': sorted(named)}, nontrivial=anyc)
+    common.compare(ctx, 'sched', sops, simpl, canon=schedlib.canon_model,
+                   what='real _schedule_tasks loop with cancel requests (marks + CANCEL messages in every drain order)')
     ctx.sample({'intake_op': ops[0] if ops else None}, limit=1)
     ctx.rule = ('(a) bulks of 1-6 tasks arriving at a component whose cancel list holds 0-2 stale and 0-3 fresh uids; '
                 '(b) executor schedules of 4-26 steps with at least one cancel request or timeout at a random position; '
@@ -164,4 +179,10 @@ def replay(ctx, data):
     if i['kind'] == 'exec':
         obs, done, rec, quiet = c07.run_schedule(rp, i['choices'])
         print(obs[-1]); return c07.monitor(obs, rec, quiet, True) is None
+    if i['kind'] == 'sched':
+        s, out, tasks, crash = schedlib.run_script(rp, i['script'])
+        bad, named, anyc = sched_monitor(i['script'], out)
+        for o in out: print(o['events'], o['state']['waitpool'])
+        print(bad)
+        return not bad
     return False
